@@ -449,7 +449,7 @@ def check_stop_during_async_init(run, only=None):
     or an error that arrives while the simulator is still waiting for init_async routines (two slow
     ones, 300 and 500 ms) takes effect at once - it does not wait for the routines, and a cancellation
     is not lost."""
-    for how in ('abort', 'shutdown', 'cancel_run', 'handler'):
+    for how in ('abort', 'shutdown', 'cancel_run', 'handler', 'cancel_run_sup', 'abort_sup', 'handler_then_cancel_sup'):
         if only is not None and how != only:
             continue
         obs = dict(run=None, t_end_ms=None, error=None, ready=None, wait_init=None, harness=None)
@@ -476,7 +476,11 @@ def check_stop_during_async_init(run, only=None):
             Slow('slow1', delay=0.3, init_timeout=2.0)
             Slow('slow2', delay=0.5, init_timeout=2.0)
             hp = HP('hp')
-            run_task = asyncio.create_task(edzed.run(catch_sigterm=False))
+            async def forever():
+                await asyncio.sleep(1000)
+            # (with a supporting coroutine run() takes another path through its code)
+            run_task = asyncio.create_task(edzed.run(forever(), catch_sigterm=False) if how.endswith('_sup')
+                                           else edzed.run(catch_sigterm=False))
 
             async def waiter():
                 try:
@@ -487,17 +491,19 @@ def check_stop_during_async_init(run, only=None):
             wtask = asyncio.create_task(waiter())
             await asyncio.sleep(0.05)
             t0 = loop.vt_us
-            if how == 'abort':
+            if how in ('abort', 'abort_sup'):
                 circuit.abort(Tagged(7))
             elif how == 'shutdown':
                 asyncio.create_task(circuit.shutdown())
-            elif how == 'cancel_run':
+            elif how in ('cancel_run', 'cancel_run_sup'):
                 run_task.cancel()
             else:
                 try:
                     hp.event('boom')
                 except Tagged:
                     pass
+                if how == 'handler_then_cancel_sup':
+                    run_task.cancel()          # the error was first: run() reports it
             done, _ = await asyncio.wait([run_task], timeout=5.0)
             obs['t_end_ms'] = (loop.vt_us - t0) // 1000
             if not done:
@@ -523,8 +529,9 @@ def check_stop_during_async_init(run, only=None):
         run.add_case(dict(stop_during_async_init=how), True)
         run.count('stop_during_async_init')
         want_run = {'abort': ['raises', 7], 'handler': ['raises', 7], 'shutdown': ['returns', None],
-                    'cancel_run': ['returns', None]}[how]
-        want_err = ['exc', 7] if how in ('abort', 'handler') else 'cancel'
+                    'cancel_run': ['returns', None], 'cancel_run_sup': ['returns', None],
+                    'abort_sup': ['raises', 7], 'handler_then_cancel_sup': ['raises', 7]}[how]
+        want_err = ['exc', 7] if how in ('abort', 'handler', 'abort_sup', 'handler_then_cancel_sup') else 'cancel'
         ok = (obs['harness'] is None and obs['run'] == want_run and obs['error'] == want_err
               and obs['ready'] is False and obs['t_end_ms'] is not None and obs['t_end_ms'] < 100
               and obs['wait_init'] == 'EdzedInvalidState')
